@@ -155,3 +155,6 @@ func vh_C16_L4_cwnd_laws_any_tsn()       { vh_C10_L3_cwnd_laws() }
 func vh_C16_L4_transfer_across_wrap()    { vh_C02_L1_reliable_transfer_one_fault() }
 func vh_C16_L4_forward_tsn_largest_ssn() { vh_C07_L2_advance_only_over_abandoned() }
 func vh_C16_L4_gap_fill_at_zero_window() { vh_C11_L2_credit_and_full_buffer() }
+
+func vh_C16_L4_clear_range_across_wrap() { vh_C05_step_clear_range() }
+func vh_C16_L4_failed_write_rollback_at_wrap() { vh_C18_L2_block_write_gate() }
